@@ -42,7 +42,7 @@ CHECKS["C04"] = dict(
     design="6/C04", technique="Coq proof (inductive invariant over the watch pipeline LTS, quiescence theorem) + quiescent-outcome correspondence under injected watch faults in virtual time")
 
 CHECKS["C03"] = dict(
-    text="Model of controller.run's list/watch cases over the cache model and an abstract API server (a log with strictly increasing versions). Proved: each good list is applied as one doSync of the whole list and restarts the watch at the list version; relist_converges / quiescent_server_one_relist: for EVERY server history, controller filter, earlier lists and watch behaviour that delivers only entries of the log (in any order, with any losses, duplicates, replays, or nothing at all), the next list that is a snapshot of the server leaves cache = the server's accepted objects; never regresses; the published events replay exactly (C02 lifted); composed with C13's relist progress. Correspondence: whole controller vs fake API server in synctest virtual time under 8 watch-fault modes x periods x list latencies x filters x perturbation: cache after every list (watch off) and after one relist on a quiet server vs the extracted relist_outcome, subscriber mirror, Close.",
+    text="Model of controller.run's list/watch cases over the cache model and an abstract API server (a log with strictly increasing versions). Proved: each good list is applied as one doSync of the whole list and restarts the watch at the list version; relist_converges / quiescent_server_one_relist: for EVERY server history, controller filter, earlier lists and watch behaviour that delivers only entries of the log (in any order, with any losses, duplicates, replays, or nothing at all), the next list that is a snapshot of the server leaves cache = the server's accepted objects; never regresses; the published events replay exactly (C02 lifted); composed with C13's relist progress. Correspondence: whole controller vs fake API server in synctest virtual time under 8 watch-fault modes x periods x list latencies x filters x perturbation: cache after every list (watch off) and after one relist on a quiet server vs the extracted relist_outcome, subscriber mirror, Close. End to end: controller_publishes_wf_history (from readiness on, what the controller publishes on a key is a well-formed history from its cache entry then to its entry at the end) and server_to_leaf (C03 + C02 + C06: under any server history, watch behaviour and earlier lists, after a final snapshot list, any chain of filtered nodes below the controller with any interleavings ends with the conjunction of its filters applied to the server's accepted object).",
     note="Hypotheses: log_ok, is_list_of, watch_from_log (entries of the log only). Liveness of relisting is C13 (fairness).",
     design="6/C03", technique="Coq proof (from_log invariant over all controller input sequences + per-key convergence theorem) + virtual-time fault-injection correspondence")
 CHECKS["C14"] = dict(
